@@ -26,13 +26,14 @@
   'assumptions':['as c03_setglyph, without the premise on the pseudo-glyph attribute'],
   'claims':'(strict variant: the clamp alone protects the client) Slot::setGlyph accepts a real-glyph id from the pseudo-glyph attribute only when it is below numGlyphs, so that gr_slot_gid < numGlyphs whenever the requested id is, whatever the attribute says. EXPECTED TO FAIL on the current tree: the clamp tests `>` and lets attribute == numGlyphs through'}@*/
 
-/*@unit {'name':'c04_link_ltr', 'props':['DEV_seglife'], 'final_props':['C04'], 'entry':'h_linkq', 'kind':'bounded', 'defines_quick':['NSLOTS=3','LINKQ','RTL=0'], 'defines_thorough':['NSLOTS=5','LINKQ','RTL=0'],
-  'unwind_quick':6, 'unwind_thorough':8, 'bound':'pool of 4 (quick) / 5 (thorough) slots, any well-formed stream over any subset of them, any parent links (not only forests), left-to-right segment (m_dir even)',
-  'assumptions':['on entry no base carries a sibling link: linkClusters runs once, from Segment::finalise, and the rule-time mutators keep bases unlinked (units c04_attach_to, c04_free_slot)',
+/*@unit {'name':'c04_link_ltr', 'props':['DEV_seglife'], 'final_props':['C04'], 'entry':'h_linkq', 'kind':'bounded', 'defines_quick':['NSLOTS=4','LINKQ','RTL=0'], 'defines_thorough':['NSLOTS=5','LINKQ','RTL=0'],
+  'unwind_quick':7, 'unwind_thorough':8, 'bound':'pool of 4 (quick) / 5 (thorough) slots, streams of 1..4 (1..5) slots, any parent links (not only forests), any sibling links on attached slots and on slots outside the stream, left-to-right segment (m_dir even)',
+  'assumptions':['symmetry reduction: the stream is laid out in pool order (slot 0, 1, .., n-1); slots are interchangeable because linkClusters never compares addresses for order - arbitrary layouts over 3 slots are covered by the thorough-tier unit c04_link_clusters',
+                 'on entry no base carries a sibling link: linkClusters runs once, from Segment::finalise, and the rule-time mutators keep bases unlinked (units c04_attach_to, c04_free_slot)',
                  'first and last are non-NULL ends of the stream (the guard at the top of Segment::finalise)'],
   'claims':'Segment::linkClusters(first, last), left-to-right: following the sibling link from the first base of the stream visits every base exactly once, in stream order, and ends with NULL; a stream without bases is left alone; no parent or child link and no sibling link of an attached slot is written, slots outside the stream are untouched'}@*/
-/*@unit {'name':'c04_link_rtl', 'props':['DEV_seglife'], 'final_props':['C04'], 'entry':'h_linkq', 'kind':'bounded', 'defines_quick':['NSLOTS=3','LINKQ','RTL=1'], 'defines_thorough':['NSLOTS=5','LINKQ','RTL=1'],
-  'unwind_quick':6, 'unwind_thorough':8, 'bound':'pool of 4 (quick) / 5 (thorough) slots, any well-formed stream over any subset of them, any parent links (not only forests), right-to-left segment (m_dir odd)',
+/*@unit {'name':'c04_link_rtl', 'props':['DEV_seglife'], 'final_props':['C04'], 'entry':'h_linkq', 'kind':'bounded', 'defines_quick':['NSLOTS=4','LINKQ','RTL=1'], 'defines_thorough':['NSLOTS=5','LINKQ','RTL=1'],
+  'unwind_quick':7, 'unwind_thorough':8, 'bound':'pool of 4 (quick) / 5 (thorough) slots, streams of 1..4 (1..5) slots, any parent links (not only forests), any sibling links on attached slots and on slots outside the stream, right-to-left segment (m_dir odd)',
   'assumptions':['as c04_link_ltr'],
   'claims':'Segment::linkClusters(first, last), right-to-left: following the sibling link from the LAST base of the stream visits every base exactly once, in reverse stream order, and ends with NULL at the first base; no parent or child link and no sibling link of an attached slot is written, slots outside the stream are untouched'}@*/
 
@@ -179,21 +180,27 @@ static bool base_chain(const Slot *head, const bool live[NSLOTS], int nbases)
     }
     return c == (const Slot *)0 && k == nbases;
 }
-void h_linkq(void)
+static void link_case(const int w_n, const unsigned w_mask)
 {
     bool live[NSLOTS];
-    havoc_links();
-    Segment sg; sg.m_first = pick_slot(); sg.m_last = pick_slot();
+    havoc_links();                                             /* every field of every pool slot arbitrary ... */
+    Segment sg;
     sg.m_dir = (int8)((nondet_unsigned() & ~1u) | RTL);
+    /* ... except: the stream is pool slot 0, 1, .., n-1 in this order; slot i is a base iff bit i of the mask is set; an attached slot
+       names one of two stream slots as its parent (linkClusters only ever asks isBase()) - see `assumptions' */
+    for (int i = 0; i < NSLOTS; ++i) if (i < w_n) {
+        g_pool[i].m_next = (i + 1 < w_n) ? &g_pool[i + 1] : (Slot *)0; g_pool[i].m_prev = i ? &g_pool[i - 1] : (Slot *)0;
+        if ((w_mask >> i) & 1) { g_pool[i].m_parent = (Slot *)0; g_pool[i].m_sibling = (Slot *)0; }            /* bases carry no sibling link yet */
+        else g_pool[i].m_parent = nondet_bool() ? &g_pool[(i + 1) % w_n] : &g_pool[0];
+    }
+    sg.m_first = &g_pool[0]; sg.m_last = &g_pool[w_n - 1];
     int o0[NSLOTS], n0;
-    __CPROVER_assume(wf_list(sg.m_first, sg.m_last, o0, &n0) && n0 >= 1);
-    for (int i = 0; i < NSLOTS; ++i) live[i] = in_order(o0, n0, i);
-    /* parents: any slot of the stream or none; bases carry no sibling link yet */
-    for (int i = 0; i < NSLOTS; ++i) if (live[i]) __CPROVER_assume((g_pool[i].m_parent == (Slot *)0 || live[IDX(g_pool[i].m_parent)]) && (g_pool[i].m_parent || g_pool[i].m_sibling == (Slot *)0));
+    __CPROVER_assert(wf_list(sg.m_first, sg.m_last, o0, &n0) && n0 == w_n, "harness: the stream is well-formed");
+    for (int i = 0; i < NSLOTS; ++i) live[i] = i < w_n;
     Slot saved[NSLOTS]; for (int i = 0; i < NSLOTS; ++i) saved[i] = g_pool[i];
     Segment_linkClusters(&sg, sg.m_first, sg.m_last);
     int bases[NSLOTS], nb = 0;
-    for (int k = 0; k < NSLOTS; ++k) if (k < n0 && !saved[o0[k]].m_parent) bases[nb++] = o0[k];
+    for (int k = 0; k < NSLOTS; ++k) if (k < w_n && !saved[k].m_parent) bases[nb++] = k;
     /* statement clause */
     const Slot *head = nb == 0 ? (const Slot *)0 : &g_pool[RTL ? bases[nb - 1] : bases[0]];
     __CPROVER_assert(base_chain(head, live, nb), "linkClusters: the sibling chain from the first base (last base for right-to-left) contains each base of the stream exactly once and ends");
@@ -207,6 +214,30 @@ void h_linkq(void)
         __CPROVER_assert(g_pool[i].m_parent == saved[i].m_parent && g_pool[i].m_child == saved[i].m_child && g_pool[i].m_next == saved[i].m_next && g_pool[i].m_prev == saved[i].m_prev, "linkClusters: parent, child and stream links are not written");
         if (!live[i] || saved[i].m_parent) __CPROVER_assert(g_pool[i].m_sibling == saved[i].m_sibling, "linkClusters: attached slots and slots outside the stream keep their sibling link");
     }
+}
+#define CASE(N, M) if (w_n == (N) && w_mask == (M)) link_case((N), (M));
+#define CASES2(N, M) CASE(N, M) CASE(N, (M) + 1)
+#define CASES4(N, M) CASES2(N, M) CASES2(N, (M) + 2)
+#define CASES8(N, M) CASES4(N, M) CASES4(N, (M) + 4)
+#define CASES16(N, M) CASES8(N, M) CASES8(N, (M) + 8)
+void h_linkq(void)
+{
+    int w_n = nondet_int(); __CPROVER_assume(w_n >= 1 && w_n <= NSLOTS);
+    unsigned w_mask = nondet_unsigned(); __CPROVER_assume(w_mask < (1u << w_n));
+    /* one run per concrete stream length and base pattern (FRAMEWORK.md item 14): the loops of linkClusters then run on concrete links */
+    CASES2(1, 0) CASES4(2, 0) CASES8(3, 0)
+#if NSLOTS >= 4
+    CASES16(4, 0)
+#endif
+#if NSLOTS >= 5
+    CASES16(5, 0) CASES16(5, 16)
+#endif
+    CANARY();
+}
+#endif
+#if NSLOTS >= 5
+    if (w_n == 5) link_case(5);
+#endif
     CANARY();
 }
 #endif
